@@ -33,7 +33,7 @@ type c01Ctx struct {
 func checkC01(c *Ctx) {
 	r, p := c.R, c.P
 	r.Explanation = "Decides structural necessary conditions of C01 on schemes/enc/v1, each compared with the in-repo published spec (README.md) where the spec gives a number, a name or a formula. " +
-		"The stream rules are evaluated on the INLINED flow of the exported entry points Encrypt and Decrypt: every same-package callee (static call, method, closure, bound method, function value with a known target — parameter, func-typed field, element of a literal table, phi of functions —, interface call on a known concrete type or on an unexported interface with a single implementation, goroutine body) is expanded context-sensitively (depth <= 10, <= 400 contexts, <= 8 alternatives per call site), parameters are followed to arguments, results to the callee's returns (a helper's flag / enum / error result stays correlated with the caller's branch on it), local variables and fields of local objects (nested, by value or behind a pointer, struct copies) to their reaching assignments including the zero value, each with the branch conditions that hold on every path from the assignment to the read. Constructs are found by role (the cipher.AEAD.Seal/Open call, the buffer handed to it as nonce, the Read of the entry point's io.Reader that shares a loop with it, the hkdf.New whose output keys the AEAD, the write that precedes the segments, the io.MultiReader assigned to the stream variable …), never by the name of an unexported function, method, type, field or local. " +
+		"The stream rules are evaluated on the INLINED flow of the exported entry points Encrypt and Decrypt: every same-package callee (static call, method, closure, bound method, function value with a known target — parameter, func-typed field, method value, element of a literal table, phi of functions —, interface call on a known concrete type or on an unexported interface with a single implementation, goroutine body) is expanded context-sensitively (depth <= 10, <= 400 contexts, <= 8 alternatives per call site); a call inside a loop over a literal table of structs (<= 8 rows) is expanded once per row with the row's fields as arguments, and stores through a row's pointer field go to that row's target, parameters are followed to arguments, results to the callee's returns (a helper's flag / enum / error result stays correlated with the caller's branch on it), local variables and fields of local objects (nested, by value or behind a pointer, struct copies) to their reaching assignments including the zero value, each with the branch conditions that hold on every path from the assignment to the read. Constructs are found by role (the cipher.AEAD.Seal/Open call, the buffer handed to it as nonce, the Read of the entry point's io.Reader that shares a loop with it, the hkdf.New whose output keys the AEAD, the write that precedes the segments, the io.MultiReader assigned to the stream variable …), never by the name of an unexported function, method, type, field or local. " +
 		"(R1a/R1b) io.Reader contract at every Read of the input: the count is consumed independently of the error (also when the error is tested through a helper predicate), the Read sits in a loop that is never left because one Read was short or empty — neither directly nor through an error manufactured under a test of a single Read's count (a 'no progress' / stall guard counting zero-length reads, consecutive or not: the statement quantifies over all read-size sequences including zero-length reads). (R1c) the segment fill loop is left only when the accumulated count reached the fill limit or an error was seen, reads at most up to that limit, and the limit is the README's segment size (+ tag size under Decrypt) + 1 look-ahead byte. (R1d) the header reader returns a nil error, not the last Read's, with a completely parsed header. " +
 		"(R5) the values that reach the nonce and the AEAD: last <=> 'count did not reach the limit' (symbolic evaluation over phis, return values and branch facts; decided from the Read error or another threshold = violation), data length = count-1 with look-ahead / count without, starting at the start of the fill buffer, the look-ahead byte buffer[count-1] is what is put back at the start of the buffer (indexed store, or copy() from where it was kept) under a flag / length that can be set, with the count restarting at 1 (or at copy's result), counter 0,+1 (loop-carried or kept in a variable / field, incremented after the operation), nothing is processed after last; (R6) a zero-length test of the data dominates the segment operation and some zero-length test in the driver loop has an empty side that reaches a clean Close. " +
 		"(R2) id/name tables (conditional constant propagation through switch / if / map-table / literal-slice loop / slices.Contains / table-index forms): README ids <-> NewXFromID/ID/Validate, every accepted name survives Validate->ID->FromID->Validate, JSON (un)marshal goes through the tables, the AEAD constructor per accepted cipher, Manifest JSON tags. " +
